@@ -48,16 +48,24 @@ def analyse(modname, clsname):
   params = [a.arg for a in init.args.args[1:]] + [a.arg for a in init.args.kwonlyargs]
   keys = {}
   conditional = set()
+  local = {}      # simple local assignments in get_config: name -> expression
   for node in ast.walk(gc):
     if isinstance(node, ast.Dict):
       for k, v in zip(node.keys, node.values):
         if isinstance(k, ast.Constant) and isinstance(k.value, str):
           keys.setdefault(k.value, v)
+    if isinstance(node, ast.Call) and ((isinstance(node.func, ast.Name) and node.func.id == 'dict') or
+                                       (isinstance(node.func, ast.Attribute) and node.func.attr == 'update')):
+      for kwd in node.keywords:
+        if kwd.arg is not None:
+          keys.setdefault(kwd.arg, kwd.value)
     if isinstance(node, ast.Assign):
       for t in node.targets:
         if isinstance(t, ast.Subscript) and isinstance(t.slice, ast.Constant) and isinstance(t.slice.value, str):
           keys.setdefault(t.slice.value, node.value)
           conditional.add(t.slice.value)
+        if isinstance(t, ast.Name):
+          local[t.id] = node.value
   # attributes assigned in __init__ from which parameter
   assigned = {}
   for node in ast.walk(init):
@@ -66,7 +74,30 @@ def analyse(modname, clsname):
         if isinstance(t, ast.Attribute) and isinstance(t.value, ast.Name) and t.value.id == 'self':
           names = {n.id for n in ast.walk(node.value) if isinstance(n, ast.Name)}
           assigned.setdefault(t.attr, set()).update(names)
-  return params, keys, assigned, conditional
+  return params, keys, assigned, conditional, local
+
+
+def _self_attrs(expr, local, depth=3):
+  """self.<attr> names an expression reads, following simple local variables of get_config."""
+  out = set()
+  for n in ast.walk(expr):
+    if isinstance(n, ast.Attribute) and isinstance(n.value, ast.Name) and n.value.id == 'self':
+      out.add(n.attr)
+    elif isinstance(n, ast.Name) and n.id in local and depth > 0:
+      out |= _self_attrs(local[n.id], local, depth - 1)
+  return out
+
+
+def _runtime_keys(modname, clsname):
+  """Keys get_config() returns on the enumerated instances (for forms the AST reading cannot see)."""
+  ks = None
+  for kw in ROUNDTRIPS.get((modname, clsname), []):
+    try:
+      got = set(_mk(modname, clsname, kw).get_config())
+    except Exception:  # pylint: disable=broad-except
+      continue
+    ks = got if ks is None else (ks & got)
+  return ks or set()
 
 
 class KeysCase(Case):
@@ -74,21 +105,25 @@ class KeysCase(Case):
   xcheck = False
 
   def body(self, cfg, c):
-    params, keys, assigned, conditional = analyse(cfg['module'], cfg['cls'])
-    own = [k for k in keys if k not in BASE_KEYS]
+    params, keys, assigned, conditional, local = analyse(cfg['module'], cfg['cls'])
+    runtime = _runtime_keys(cfg['module'], cfg['cls'])
+    own = [k for k in list(keys) + sorted(runtime - set(keys)) if k not in BASE_KEYS]
     cl = []
     for k in own:
       cl.append(('key-is-a-constructor-parameter[%s]' % k, B.const(k in params)))
     for p_ in params:
-      cl.append(('constructor-parameter-is-serialised[%s]' % p_, B.const(p_ in keys)))
+      cl.append(('constructor-parameter-is-serialised[%s]' % p_, B.const(p_ in keys or p_ in runtime)))
+    tied = {a: ps & set(params) for a, ps in assigned.items()}
     for k in own:
-      if k not in params:
+      if k not in params or k not in keys:
         continue
-      attrs = {n.attr for n in ast.walk(keys[k]) if isinstance(n, ast.Attribute) and
-               isinstance(n.value, ast.Name) and n.value.id == 'self'}
-      # the value comes from an attribute that __init__ sets from the parameter of the same name
-      ok = any(k in assigned.get(a, set()) or a == k for a in attrs)
-      cl.append(('value-comes-from-its-own-parameter[%s]' % k, B.const(ok)))
+      attrs = _self_attrs(keys[k], local)
+      # the value is read from an attribute that __init__ sets from the parameter of the same name;
+      # refuted only when it reads attributes that are all tied to OTHER parameters (forms the AST
+      # reading cannot resolve are left to the executed round trips)
+      ok = any(k in tied.get(a, set()) or a in (k, '_' + k) for a in attrs)
+      other = [a for a in attrs if tied.get(a) and k not in tied[a] and a not in (k, '_' + k)]
+      cl.append(('value-comes-from-its-own-parameter[%s]' % k, B.const(ok or not other)))
     return cl
 
 
